@@ -61,14 +61,18 @@ class Gen:
         return {"k": kind, "shape": list(shape), "data": self.ints(prod(shape), pool)}
 
     def lead(self, Ne, nPg, exact=False):
+        """finite element axes of one FeArray operand, drawn independently for EVERY operand:
+        full field (Ne, nPg), per-element (Ne, 1), per-Gauss-point (1, nPg) or constant (1, 1).
+        Two operands therefore meet in all 16 pairings, size-1 axes on different sides included
+        (the operation's (Ne, nPg) is then the numpy broadcast of the two, equal to neither)."""
         r = self.rng.random()
-        if exact or r < 0.75:
+        if r < 0.46:
             return [Ne, nPg]
-        if r < 0.85:
-            return [1, 1]
-        if r < 0.93:
+        if r < 0.64:
+            return [Ne, 1]
+        if r < 0.82:
             return [1, nPg]
-        return [Ne, 1]
+        return [1, 1]
 
     def derive(self, u, full=False):
         rng = self.rng
@@ -251,14 +255,16 @@ class Gen:
         rng = self.rng
         r = rng.choice([0, 1, 2, 2, 3])
         full = [self.d(), self.d()] + [self.d() for _ in range(r)]
-        cond = self.operand(rng.choice(["fe", "fe", "plain"]), full if rng.random() < 0.8 else full[:2], [0, 1])
-        if cond["k"] == "plain" or rng.random() < 0.0:
-            cond = self.operand(cond["k"], cond["shape"], [0, 1])
+        ck = rng.choice(["fe", "fe", "plain"])
+        cshape = full if rng.random() < 0.8 else full[:2]
+        if ck == "fe":
+            cshape = self.lead(full[0], full[1]) + cshape[2:]
+        cond = self.operand(ck, cshape, [0, 1])
         ops = [cond]
         for _ in range(2):
             k = rng.choice(["fe", "fe", "scalar", "plain"])
             if k == "fe":
-                ops.append(self.operand("fe", full))
+                ops.append(self.operand("fe", self.lead(full[0], full[1]) + full[2:]))
             elif k == "scalar":
                 ops.append(self.operand("scalar", []))
             else:
@@ -369,6 +375,27 @@ def directed_cases():
     C.append({"op": "einsum", "labels": [[0, 1]], "out": [1, 0], "args": [fe([2, 2, 2, 2])]})
     C.append({"op": "where", "args": [fe([2, 2], [0, 1, 1, 0]), fe([2, 2]), sc(0)]})
     C.append({"op": "where", "args": [pl([3, 3, 3], [i % 2 for i in range(27)]), fe([1, 1, 3]), sc(0)]})
+    # all 16 pairings of finite element axes (Ne,nPg) / (Ne,1) / (1,nPg) / (1,1) on the two
+    # operands, through every two-operand path: elementwise ufunc, @ (np.matmul gufunc for
+    # matrix-matrix, einsum otherwise), dot, ddot, np.einsum, np.where -- with Ne != nPg and with
+    # the collision Ne = nPg = dim
+    for Ne, nPg, n in ((3, 2, 2), (2, 2, 2)):
+        leads = ([Ne, nPg], [Ne, 1], [1, nPg], [1, 1])
+        for la in leads:
+            for lb in leads:
+                A, B = fe(la + [n, n]), fe(lb + [n, n])
+                va, vb = fe(la + [n]), fe(lb + [n])
+                C.append({"op": "matmul", "args": [A, B]})
+                C.append({"op": "matmul", "args": [A, vb]})
+                C.append({"op": "matmul", "args": [va, B]})
+                C.append({"op": "dot", "args": [va, vb]})
+                C.append({"op": "ddot", "args": [A, B]})
+                C.append({"op": "ufunc2", "code": 1, "how": "operator", "args": [A, vb]})
+                C.append({"op": "ufunc2", "code": 4, "how": "np", "args": [va, B]})
+                C.append({"op": "einsum", "labels": [[0, 1], [1, 2]], "out": [0, 2], "args": [A, B]})
+                C.append({"op": "einsum", "labels": [[0], [1]], "out": [0, 1], "args": [va, vb]})
+                C.append({"op": "where", "args": [fe(la + [n], [i % 2 for i in range(prod(la) * n)]), vb, sc(0)]})
+                C.append({"op": "where", "args": [fe(la + [n], [(i // 2) % 2 for i in range(prod(la) * n)]), fe(la + [n]), vb]})
     for i, c in enumerate(C):
         c["coll"] = True
     return C
